@@ -450,19 +450,34 @@ fn adversarial_shape(subj: Subj, prof: &Prof) -> BoxedStrategy<Case> {
     let _ = prof;
     (
         // population before the victim, after the victim
-        prop_oneof![3 => 0usize..4, 3 => 4usize..40, 2 => 40usize..130],
-        prop_oneof![3 => 0usize..4, 3 => 4usize..40, 2 => 40usize..130],
+        prop_oneof![4 => 0usize..4, 4 => 4usize..20, 1 => 20usize..90],
+        prop_oneof![4 => 0usize..4, 4 => 4usize..20, 1 => 20usize..90],
         // constructor flavour for unbounded subjects
         prop_oneof![3 => Just((1u8, 1usize)), 2 => Just((1u8, 2usize)), 3 => Just((0u8, 0usize)), 1 => Just((2u8, 0usize))],
         // how the grind looks
         prop_oneof![2 => Just(0u8), 3 => Just(1u8), 2 => Just(2u8)],
-        40u16..700,
+        0u16..60,
         waker_idx(),
         sel(),
     )
         .prop_map(move |(before, after, (ctor, ucap), style, grind, wk, vsel)| {
             let mut ops = Vec::new();
             let total = before + after + 1;
+            // how long the grind must be to tell "late" from "never": the oracle's bound (G+1)(N+2)+4
+            let (g_est, n_est) = match subj {
+                Subj::UU | Subj::OU | Subj::MU => {
+                    let first = if ctor == 1 && subj != Subj::MU && ucap > 0 { ucap } else if ctor == 2 && subj != Subj::MU { total.max(32) } else { 32 };
+                    let (mut g, mut n, mut c) = (1usize, first, first);
+                    while n < total + 2 {
+                        c *= 2;
+                        n += c;
+                        g += 1;
+                    }
+                    (g, n)
+                }
+                _ => (1, total + 2),
+            };
+            let grind = ((g_est + 1) * (n_est + 2) + 12 + grind as usize).min(4000) as u16;
             let mut cfg = Cfg::default();
             let mut initial = Vec::new();
             for i in 0..total {
